@@ -181,15 +181,30 @@ func vhValueOf(cls, maxLen int) interface{} {
 func vhMaxLen() int { return 2 + verifTier() }
 
 //verif:bounds all 25 storage-class pairs; int64/float64 full range (no NaN); text (valid UTF-8) and blobs of 0..2 bytes (thorough: 0..3), bytes free incl. NUL; 3 collations
-//verif:shards 25
+//verif:shards 37
 func VH_C11_compare() {
-	sh := verifShard(25)
-	ca, cb := sh/5, sh%5
+	sh := verifShard(37)
+	var a, b interface{}
 	coll := 0
-	if ca == 3 && cb == 3 {
-		coll = verifChoice(3)
+	if sh < 25 {
+		ca, cb := sh/5, sh%5
+		if ca == 3 && cb == 3 {
+			verifReach("end") // text x text: shards 25..36
+			return
+		}
+		a, b = vhValueOf(ca, vhMaxLen()), vhValueOf(cb, vhMaxLen())
+	} else {
+		// text x text, one shard per (collation, length of a)
+		coll = (sh - 25) % 3
+		la := (sh - 25) / 3
+		if la > vhMaxLen() {
+			verifReach("end")
+			return
+		}
+		sa := verifString(la)
+		verifAssume(utf8.ValidString(sa))
+		a, b = sa, vhValueOf(3, vhMaxLen())
 	}
-	a, b := vhValueOf(ca, vhMaxLen()), vhValueOf(cb, vhMaxLen())
 	got := compare(a, b, CollateFuncs[vhCollNames[coll]])
 	want := rmCompare(a, b, coll)
 	verifAssert(vhSign(got) == want, "compare agrees with SQLite's order")
